@@ -305,6 +305,8 @@ func checkC01(c *Ctx) {
 	c.checkRehashDecision()
 	c.checkAdapterSeqId()
 	c.checkSeqReportedBeforeReentry()
+	// the deleted/paused flags the removal order relies on are updated without losing a concurrent update
+	c.checkAtomicRMW()
 }
 
 func posOf(c *Ctx, in ssa.Instruction) string {
